@@ -5,18 +5,34 @@ Import ListNotations.
 From V Require Import Base.Bytes.
 Open Scope Z_scope.
 
+(* x mod m, with a shortcut when x is already reduced (the extracted binary division is slow);
+   equal to x mod m for m > 0 (GoIntFacts.fast_mod_eq) *)
+Definition fast_mod (x m : Z) : Z := if (0 <=? x) && (x <? m) then x else x mod m.
+
+Definition two_p (bits : Z) : Z :=
+  if bits =? 64 then 18446744073709551616 else if bits =? 32 then 4294967296
+  else if bits =? 63 then 9223372036854775808 else if bits =? 31 then 2147483648
+  else 2 ^ bits.
+
 (* uintN(x): the value of x modulo 2^N *)
-Definition wrapu (bits : Z) (x : Z) : Z := x mod 2 ^ bits.
+Definition wrapu (bits : Z) (x : Z) : Z := fast_mod x (two_p bits).
 (* intN(x): the two's complement reinterpretation of x modulo 2^N *)
-Definition wraps (bits : Z) (x : Z) : Z := (x + 2 ^ (bits - 1)) mod 2 ^ bits - 2 ^ (bits - 1).
+Definition wraps (bits : Z) (x : Z) : Z := fast_mod (x + two_p (bits - 1)) (two_p bits) - two_p (bits - 1).
 
 Definition u8 := wrapu 8.   Definition u16 := wrapu 16.
 Definition u32 := wrapu 32. Definition u64 := wrapu 64.
 Definition i8 := wraps 8.   Definition i16 := wraps 16.
 Definition i32 := wraps 32. Definition i64 := wraps 64.
 
+(* little-endian bytes, one division per byte (equal to Base.Bytes.bytes_of_le, GoIntFacts.le_bytes_eq) *)
+Fixpoint le_bytes (n : nat) (v : Z) : bytes :=
+  match n with
+  | O => []
+  | S k => let (q, r) := Z.div_eucl v 256 in r :: le_bytes k q
+  end.
+
 (* binary.LittleEndian.PutUintN of uintN(x) *)
-Definition le_put (n : nat) (x : Z) : bytes := bytes_of_le n (wrapu (8 * Z.of_nat n) x).
+Definition le_put (n : nat) (x : Z) : bytes := le_bytes n (wrapu (8 * Z.of_nat n) x).
 
 (* Go's math.Round on an exact rational num/den (den > 0): half away from zero *)
 Definition round_half_away (num den : Z) : Z :=
